@@ -21,7 +21,7 @@ func init() {
 		Assumptions: []string{"the callback itself does not reach back into the parser"},
 		TrustedBase: append([]string{"go/ssa (x/tools v0.29.0)"}, baseTrusted...),
 		Floors: []report.Floor{
-			{Rule: "cb-guard", What: "calls", Min: 4}, {Rule: "error-forwarding", What: "report-origins", Min: 4},
+			{Rule: "cb-guard", What: "calls", Min: 2}, {Rule: "error-forwarding", What: "report-origins", Min: 4},
 			{Rule: "cb-guard", What: "field-stores", Min: 3},
 			{Rule: "callback-plumbing", What: "config-args", Min: 2},
 			{Rule: "callback-plumbing", What: "ctor-stores", Min: 2},
